@@ -254,6 +254,19 @@ prop("C30",
               "outside Verus), the cell storage of the worksheet, what Font/Fill/Border contain, file round trips of styles (C24/C26)")
 
 
+prop("C32",
+     units=["renamedn"],
+     level="proof",
+     claim="slice: renaming a defined name rewrites, in a formula tree, exactly the uses of THAT name — same scope, any letter case — to the new name and leaves every "
+           "other name (other scope, other spelling) alone; every composite node (operators, function calls, comparisons, unary, implicit intersection, spill "
+           "operator, LAMBDA definitions and calls) hands the same (name, scope, new name) to all its children, so no use is missed "
+           "(rename_defined_name_in_node, arm by arm)",
+     assumptions=["str::to_lowercase is a function of the text (uninterpreted `lower`); String equality as vstd models it",
+                  "the match in rename_defined_name_in_node dispatches each node kind to the arm extracted for it (arms are extracted one by one)"],
+     residual="that Model::update_defined_name applies the traversal to every formula of every sheet and re-parses; values before/after; stability under sheet "
+              "rename/move/delete, language/locale switches and both file round trips (string, parser and serialisation code)")
+
+
 def evidence(pid, tier, seed, results, scan_results, kani_results, violations, known_hits, undecided, wall):
     P = PROPS[pid]
     obligations = 0
